@@ -418,6 +418,8 @@ type caseRec struct {
 
 const specStepLimit = 20_000
 
+var dumpPrefix = os.Getenv("VERIF_C13_DUMP")
+
 type stats struct {
 	r           *vk.Run
 	programs    atomic.Int64 // run on both sides and compared
@@ -511,6 +513,9 @@ func (s *stats) check(p prog) bool {
 	a := runImpl(p)
 	b := runImplOpt(p, false)
 	b.Steps = a.Steps
+	if dumpPrefix != "" && strings.HasPrefix(p.Key, dumpPrefix) { // development aid
+		fmt.Printf("DUMP %s | spec %s %s undet=%q | impl %s %s %s\n", p.Key, m.State, clip(sv.Canon(m.Result)), m.Undet, a.State, clip(a.Canon), a.Err)
+	}
 	s.implRuns.Add(2)
 	s.transitions.Add(int64(a.Steps))
 	ok := true
@@ -579,7 +584,7 @@ func (s *stats) check(p prog) bool {
 	} else {
 		s.faults.Add(1)
 	}
-	if strings.HasPrefix(p.Section, "layout-") {
+	if isFamilySection(p.Section) {
 		s.noteFamily(p, m, a)
 	}
 	if m.Thrown > 0 {
@@ -801,11 +806,12 @@ func TestCheck(t *testing.T) {
 		"undetermined_where_model_reading_differs_from_impl": undetDiffers,
 		"sections":        secNames,
 		"layout_families": st.familyReport(),
+		"budget_families": budgetFamilyReport(),
 		"value_set_sizes": fmt.Sprintf("V=%d (unary adds %d typed values), V'=%d, sequence alphabet=%d over %d operand values, compound alphabet=%d over %d aliasing prefixes", len(valuesV()), len(valuesTyped()), len(valuesTernary()), len(seqAlphabet()), len(seqValues(r)), len(compoundAlphabet()), len(compoundPrefixes())),
 	}, []string{
 		"the C# JSON vectors (pkg/vm/testdata/neo-vm) are an empty submodule here: the model is bound to the reference by the cited opcode descriptions / .NET BigInteger documentation and by the self-test facts, not by vectors",
 		"latest hardfork behaviour (vm.New() enables all hardforks): SHL/SHR by 0 yield an Integer (Gorgon, docs/node-configuration.md)",
-		"excluded as undetermined (counted in undetermined_by_reason): CALL/CALLA/ENDTRY/ENDFINALLY/handler dispatch exactly to the end of the script (JMP* there is decided: the reference's ExecuteJump rejects position >= Script.Length), programs of the layout families that exceed their model step limit (loops), not-taken jumps / TRY handlers / ENDTRY targets outside the script, ROLL 0 on an otherwise empty stack, HASKEY index >= MaxItemSize, text of engine-raised exception messages, struct comparison at its element/size budget, ASSERTMSG with a Null or non-ASCII message, unreachable cyclic garbage deciding the MaxStackSize limit",
+		"excluded as undetermined (counted in undetermined_by_reason): CALL/CALLA/ENDTRY/ENDFINALLY/handler dispatch exactly to the end of the script (JMP* there is decided: the reference's ExecuteJump rejects position >= Script.Length), programs of the layout families that exceed their model step limit (loops), not-taken jumps / TRY handlers / ENDTRY targets outside the script, ROLL 0 on an otherwise empty stack, HASKEY index >= MaxItemSize, text of engine-raised exception messages, struct comparisons whose outcome depends on a detail of the reference's Struct.Equals the model does not claim (visiting order of the pairs when a mismatch and an exhausted budget compete, one size budget for the whole comparison or one per struct, whether the outermost pair costs a unit, pair limit including or excluding the outermost pair - see lib/specvm/ext_budget.go), ASSERTMSG with a Null or non-ASCII message, unreachable cyclic garbage deciding the MaxStackSize limit",
 		"SYSCALL and CALLT have external effects and are only exercised on a bare VM (both sides fault)",
 		"gas is only compared between two runs of the implementation, the model has no notion of gas",
 	})
